@@ -47,7 +47,10 @@ class Files(staticfiles.BaseFiles[ASGIApp]):
         if_modified_since: str = ""
         for k, v in scope["headers"]:
             if k == b"if-none-match":
-                if_none_match = v.decode("latin-1")
+                # a list-valued field: several lines mean one comma separated list
+                if_none_match = ", ".join(
+                    filter(None, (if_none_match, v.decode("latin-1")))
+                )
             elif k == b"if-modified-since":
                 if_modified_since = v.decode("latin-1")
         filepath = self.ensure_absolute_path(scope["path"])
@@ -79,7 +82,10 @@ class Pages(Files):
         if_modified_since: str = ""
         for k, v in scope["headers"]:
             if k == b"if-none-match":
-                if_none_match = v.decode("latin-1")
+                # a list-valued field: several lines mean one comma separated list
+                if_none_match = ", ".join(
+                    filter(None, (if_none_match, v.decode("latin-1")))
+                )
             elif k == b"if-modified-since":
                 if_modified_since = v.decode("latin-1")
         filepath = self.ensure_absolute_path(scope["path"])
